@@ -3,7 +3,7 @@ import re
 from fractions import Fraction
 
 from oracle import defs as D
-from rules.core import (NotATable, TableIndexOutOfRange, tbl_eval, switch_keys, AnchorMissing, fold, op_local, find_fn_suffix, callee_name)
+from rules.core import (copy_root, NotATable, TableIndexOutOfRange, tbl_eval, switch_keys, AnchorMissing, fold, op_local, find_fn_suffix, callee_name)
 
 PF = "lexical_parse_float::"
 
@@ -96,14 +96,14 @@ def rule_lemire(col, facts):
     C = S = A = None
     mul_dest = None
     for _bb, callee, args, dest, _t in f.calls():
-        if callee_name(callee).endswith("wrapping_mul") and op_local(args[0]) is not None:
+        if callee_name(callee).endswith("wrapping_mul") and copy_root(f, args[0]) == 1:
             C = fold(f, args[1])
             mul_dest = dest[0]
     for b in f.blocks:
         for st in b["s"]:
             if st[0] == "=" and st[2][0] == "bin":
                 op = st[2][1]
-                if op.startswith("Shr") and op_local(st[2][2]) == mul_dest:
+                if op.startswith("Shr") and copy_root(f, st[2][2]) == mul_dest:
                     S = fold(f, st[2][3])
                     shr_dest = st[1][0]
                 if op.startswith("Add") and fold(f, st[2][2]) is None and fold(f, st[2][3]) is not None:
@@ -390,7 +390,9 @@ def rule_small_powers(col, facts, radices=None):
                 break
             n_checked += 1
             col.check(R, "get_small_int_power(%d,%d)" % (i, r), v == r ** i, "= %d, expected %d^%d = %d" % (v, r, i, r ** i), g.loc())
-    col.floor(R, "power table entries (%s)" % facts.config, n_checked, 50)
+    tabulated = [x for x in valid_radices(facts) if (radices is None or x in radices) and not D.is_pow2(x)]
+    if tabulated:
+        col.floor(R, "power table entries (%s)" % facts.config, n_checked, 50)
 
 
 # ---------------------------------------------------------------------------------------------
